@@ -64,7 +64,7 @@ fn c11_send_announce() {
     assert!(d.send_event == 0 && !d.overflow);
     if code == ST_MASTER {
         assert!(d.n == 2 && d.send_general == 1 && d.reset_announce == 1, "C11/C12: master must emit an Announce and re-arm the announce timer");
-        assert!(d.dur_announce == core::time::Duration::from_secs(1), "C12: announce timer re-armed with the configured interval");
+        assert!(d.dur_announce == core::time::Duration::new(1, 0), "C12: announce timer re-armed with the configured interval");
         let st = state.peek();
         let h = ser_header().unwrap();
         assert!(h.source_port_identity == cfg.identity() && h.domain_number == st.default_ds.domain_number && h.sdo_id == st.default_ds.sdo_id
